@@ -91,6 +91,70 @@ impl Big {
     }
 }
 
+impl Big {
+    pub fn mul_small(&self, m: u32) -> Big {
+        let mut r = Vec::with_capacity(self.0.len() + 1);
+        let mut carry = 0u64;
+        for l in &self.0 {
+            let cur = u64::from(*l) * u64::from(m) + carry;
+            r.push(cur as u32);
+            carry = cur >> 32;
+        }
+        if carry > 0 {
+            r.push(carry as u32);
+        }
+        Big(r).trim()
+    }
+    /// exact division by a small number (the remainder must be 0)
+    pub fn div_small_exact(&self, d: u32) -> Big {
+        let mut r = vec![0u32; self.0.len()];
+        let mut rem = 0u64;
+        for i in (0..self.0.len()).rev() {
+            let cur = (rem << 32) | u64::from(self.0[i]);
+            r[i] = (cur / u64::from(d)) as u32;
+            rem = cur % u64::from(d);
+        }
+        assert_eq!(rem, 0, "div_small_exact: not divisible");
+        Big(r).trim()
+    }
+}
+
+/// C(n, i) for i in lo..=hi by the multiplicative recurrence (no triangle: works for large n)
+pub fn binom_range(n: usize, lo: usize, hi: usize) -> Vec<Big> {
+    let mut out = Vec::with_capacity(hi.saturating_sub(lo) + 1);
+    let mut c = Big::one();
+    for i in 0..=hi {
+        if i > n {
+            c = Big::zero();
+        }
+        if i >= lo {
+            out.push(c.clone());
+        }
+        if i < n {
+            c = c.mul_small((n - i) as u32).div_small_exact((i + 1) as u32);
+        }
+    }
+    out
+}
+
+/// P[X >= k] exactly for large populations (no Pascal triangle)
+pub fn hypergeom_tail_large(pop: usize, succ: usize, draws: usize, k: usize) -> f64 {
+    let hi = succ.min(draws);
+    let lo = k.max((draws + succ).saturating_sub(pop));
+    if lo > hi {
+        return 0.0;
+    }
+    let a = binom_range(succ, lo, hi); // C(K, i), i = lo..=hi
+    let b = binom_range(pop - succ, draws - hi, draws - lo); // C(N-K, j), j = n-hi..=n-lo
+    let mut num = Big::zero();
+    for (x, i) in (lo..=hi).enumerate() {
+        let j = draws - i;
+        num = num.add(&a[x].mul(&b[j - (draws - hi)]));
+    }
+    let den = binom_range(pop, draws, draws).pop().unwrap();
+    ratio(&num, &den)
+}
+
 /// num / den as f64 (relative error ~1e-16)
 pub fn ratio(num: &Big, den: &Big) -> f64 {
     if num.is_zero() {
@@ -165,5 +229,13 @@ mod tests {
         let p = hypergeom_tail(50, 25, 13, 2);
         assert!((p - 0.9996189832542278).abs() < 1e-15, "{p}");
         assert!((hypergeom_tail(10, 3, 4, 0) - 1.0).abs() < 1e-15);
+        for (n, k, d, x) in [(50, 25, 13, 2), (300, 120, 77, 30), (441, 420, 400, 381), (169, 105, 49, 5)] {
+            let a = hypergeom_tail(n, k, d, x);
+            let b = hypergeom_tail_large(n, k, d, x);
+            assert!((a - b).abs() <= 1e-15 * a.abs(), "{a} {b}");
+        }
+        // python: sum(Fraction(comb(1101,i)*comb(19484-1101,60-i),comb(19484,60)) for i in range(25,61))
+        let p = hypergeom_tail_large(19484, 1101, 60, 25);
+        assert!((p - 3.763362705232727e-16).abs() < 1e-28, "{p:e}");
     }
 }
